@@ -5,7 +5,7 @@
              list equals the model's;
    spec_ok : every match list satisfies the property's four clauses against Spec/Regex.v;
    kf      : 1 when every input that fails the spec is in the class of known finding 9.5. *)
-From Boreal Require Import Base.Prelude Base.Consts Spec.Regex Model.Hir Model.Widen Model.Validator Model.Raw Model.HirScan.
+From Boreal Require Import Base.Prelude Base.Consts Spec.Regex Model.Hir Model.Widen Model.Validator Model.SimpleValidator Model.Raw Model.HirScan.
 
 Definition matches_eqb : list (N * N) -> list (N * N) -> bool := list_eqb (pair_eqb N.eqb N.eqb).
 
@@ -184,6 +184,21 @@ Definition C03_case (n : node) (ci da : bool) (d : sdesc) (ins : list (list N)) 
           (hir_eqb (s_hir d) h && (length ins =? length outs)%nat && ok_subjects
            && Bool.eqb (m_dot_all (s_mods d)) da && (negb ci || m_nocase (s_mods d)))
           ok_subjects.
+
+(* the half validators the implementation built (read from the hook's kind text: 0 none, 1 Simple, 2 Dfa)
+   against the model's prediction (`HalfValidator::new`: Simple when `SimpleValidator::new` accepts) *)
+Definition half_code (md : mods) (o : option hir) (reverse : bool) : N :=
+  match o with
+  | None => 0
+  | Some h => match simple_new md h reverse with Some _ => 1 | None => 2 end
+  end.
+Definition kinds_ok (d : sdesc) (rev_code fwd_code : N) : bool :=
+  match s_kind d with
+  | KNonGreedy => (half_code (s_mods d) (s_pre d) true =? rev_code) && (half_code (s_mods d) (s_post d) false =? fwd_code)
+  | _ => true
+  end.
+Definition with_kinds (b : bool) (t : bool * bool * N) : bool * bool * N :=
+  let '(c, sp, k) := t in (c && b, sp, k).
 
 (* ------------------------------------------------------------------ C02: hex strings *)
 Definition one_input (d : sdesc) (h : hir) (mem : list N) (out : list (N * N)) : bool * bool * N :=
